@@ -191,11 +191,22 @@ def generate(tier, seed):
                         for m in range(0, cap + 3):
                             xs = content(m, 20, 60)
                             add("sv.insert_rng %s p=%d xs=%s ord=1" % (h, p, fl(xs)))
+                            add("sv.move_insert %s p=%d xs=%s ord=1" % (h, p, fl(xs)))     # the public member, called directly
                             if m >= 1 and p in (0, n):
                                 add("sv.insert_rng %s p=%d xs=%s ord=0" % (h, p, fl(xs)))
+                                add("sv.move_insert %s p=%d xs=%s ord=0" % (h, p, fl(xs)))
                         add("sv.erase %s p=%d" % (h, p))
                         for q in ((0,) if T == "zero" else range(-1, n + 3)):
                             add("sv.erase_rng %s f=%d l=%d" % (h, p, q))
+                    # the protected "unsafe" members of the storage base, driven through a derived class: a new size within the
+                    # constructed elements (valid) or beyond the capacity (the inner check must fire)
+                    for m in list(range(0, n + 1)) + [cap + 1, cap + 2] + BIG:
+                        add("sv.unsafe_set_size %s n=%s" % (h, m))
+                    if T == "nontriv":
+                        for f in range(-1, n + 3):
+                            for la in range(-1, n + 3):
+                                if not (0 <= f <= n and 0 <= la <= n) or f == la:
+                                    add("sv.unsafe_destroy %s f=%d l=%d" % (h, f, la))
                     for m in list(range(0, cap + 3)) + BIG:
                         add("sv.resize %s n=%s" % (h, m))
                         add("sv.resize_v %s n=%s v=%d" % (h, m, v))
@@ -241,6 +252,8 @@ def generate(tier, seed):
                     add("iv.push %s v=%d k=%d" % (h, v, k))
                 add("iv.emplace_back %s v=%d" % (h, v))
                 add("iv.pop %s" % h)
+                for m in list(range(0, n + 1)) + [cap + 1, cap + 2] + BIG:     # the private member (explicit-instantiation access)
+                    add("iv.unsafe_set_size %s n=%s" % (h, m))
         # ---- string_view / span
         for n in range(0, 5):
             e = content(n, 97, 122)
@@ -291,6 +304,8 @@ def generate(tier, seed):
                         add("str.at %s a=%s k=%d" % (h, i, k))
                 add("str.push %s v=%d" % (h, rnd.randint(97, 122)))
                 add("str.pop %s" % h)
+                for m in sorted(set(range(0, n + 1)) if cap == 4 else {0, n // 2, n}) + [cap + 1, cap + 2] + BIG:
+                    add("str.unsafe_set_size %s a=%s" % (h, m))
                 for m in sorted({0, 1, n, cap - 1, cap, cap + 1, cap + 2}) + BIG:
                     if isinstance(m, int) and m >= 0:
                         add("str.assign_fill %s a=%s v=%d" % (h, m, rnd.randint(97, 122)))
@@ -353,6 +368,20 @@ def generate(tier, seed):
             for pos in idxs(n):
                 for cnt in (0, 1, 3, n, "npos"):
                     add("bs.ctor e=%s pos=%s n=%s" % (fl(e), pos, cnt))
+        # ---- to_ulong (w=0) / to_ullong (w=1): both result types have 64 digits on this platform (LP64; the harness rejects
+        # the line otherwise).  Widths below, at and above 64; the value fits (no bit at a position >= 64) or does not.
+        for cap in (5, 11, 40, 64, 65, 70, 130):
+            pats = [[0] * cap, [1] * cap, content(cap, 0, 1)]
+            low = content(min(cap, 64), 0, 1) + [0] * max(0, cap - 64)
+            pats.append(low)
+            for i in sorted({0, 31, 32, 63, 64, 65, cap - 1, rnd.randrange(cap)}):
+                if i < cap:
+                    pats.append([1 if j == i else 0 for j in range(cap)])
+                    if i >= 64:
+                        pats.append([1 if j == i else b for j, b in enumerate(low)])
+            for e in pats:
+                for w in (0, 1):
+                    add("bs.to_u cap=%d e=%s w=%d d=64" % (cap, fl(e), w))
         # ---- scalars
         for w in (8, 16, 32, 64):
             top = 2 ** w
